@@ -23,7 +23,7 @@ func init() {
 				"!developmentMode, storing the template just returned by the loader path under the path that was looked up; (C16.nocache) the cache flag is threaded unchanged " +
 				"(every call passes its own flag parameter inside the parse cycle; Set.Parse passes constant false); (C16.ext) the extension list is only ever ranged over " +
 				"(forward), each candidate is <path>+<extension>, the first hit returns, and Open/parse receive the string that Exists accepted; (C16.errs) errors of Open, ReadAll, " +
-				"parse and the lookup helpers are returned, never dropped or replaced by nil. (C16.put, continued) the key passed to Cache.Put is one a later lookup of the same name tries (the stored template's Name, or the form of a Cache.Get key). (C16.ext, continued) every Loader.Exists / Cache.Get of the Set lies inside a loop over the configured extensions. (C16.probe, continued) outside development mode no path of getTemplate reaches the loader without having asked the cache, whatever the caller's cache flag. (C16.state) the same rule as C10.state: on the lookup paths nothing but the Cache is written that outlives the call, so neither failed lookups nor anything else is remembered outside it. (C16.ext, continued) the extension list is stored into the Set as it was given, element for element.",
+				"parse and the lookup helpers are returned, never dropped or replaced by nil. (C16.put, continued) the key passed to Cache.Put is one a later lookup of the same name tries (the stored template's Name, or the form of a Cache.Get key). (C16.ext, continued) every Loader.Exists / Cache.Get of the Set lies inside a loop over the configured extensions. (C16.probe, continued) outside development mode no path of getTemplate reaches the loader without having asked the cache, whatever the caller's cache flag. (C16.state) the same rule as C10.state: on the lookup paths nothing but the Cache is written that outlives the call, so neither failed lookups nor anything else is remembered outside it. (C16.ext, continued) the extension list is stored into the Set as it was given, element for element. (C16.ext every-candidate) nothing ends an iteration of the loops over the configured extensions before the candidate was looked up: cache and loader see the same candidates of a name.",
 			NotDecided:  "what custom Cache/Loader implementations do; identity of templates requested under different spellings of one file (keys are requested paths); atomicity under concurrency (C11); the default extension list.",
 			Assumptions: []string{"a Cache returns what was Put under the same key (contract of the Cache interface)"},
 			Trusted:     commonTrusted,
@@ -756,6 +756,27 @@ func (c16) extLoop(c *an.Ctx, f *an.Fn, rs *ast.RangeStmt) {
 		}
 	}
 	c.Check(okCand, "C16.ext", key+"/candidate", lookup.Pos(), "candidate is <path parameter> + <extension>", "the candidate looked up is not <path parameter> + <current extension>")
+	// every candidate is probed: nothing cuts an iteration short before the lookup (a `continue` in front of it —
+	// "a name that already has an extension needs no further probes" — makes the cache and the loader disagree on the
+	// candidates of a name: what one remembers under <name>+<ext> the other never asks for)
+	skip := token.NoPos
+	ast.Inspect(rs.Body, func(n ast.Node) bool {
+		switch b := n.(type) {
+		case *ast.FuncLit:
+			return false
+		case *ast.BranchStmt:
+			if b.Pos() < lookup.Pos() && !skip.IsValid() {
+				skip = b.Pos()
+			}
+		case *ast.ReturnStmt:
+			if b.Pos() < lookup.Pos() && !skip.IsValid() {
+				skip = b.Pos()
+			}
+		}
+		return true
+	})
+	c.Check(!skip.IsValid(), "C16.ext", key+"/every-candidate", firstValid(skip, rs.Pos()), "every configured extension is probed until the first hit",
+		"an iteration of the loop over the extensions can end before its candidate was looked up: some candidates <name>+<extension> are never asked for, so the cache (or the loader) no longer sees the names the other one uses")
 	// first existing wins: once a candidate was found, no further candidate is probed — on any path,
 	// including failures of the load that follows (typestate over the loop: HIT is absorbing up to return)
 	hitVars := map[types.Object]bool{}
@@ -963,4 +984,11 @@ func c16emptyList(info *types.Info, e ast.Expr) string {
 		return ""
 	}
 	return "appended to a list that is not empty"
+}
+
+func firstValid(a, b token.Pos) token.Pos {
+	if a.IsValid() {
+		return a
+	}
+	return b
 }
